@@ -1,6 +1,8 @@
 package checks
 
 import (
+	"encoding/json"
+	"os/exec"
 	"bytes"
 	"context"
 	"encoding/base64"
@@ -235,6 +237,8 @@ func c10(tier string) int {
 	c10RateRecovery(run, "C10")
 	// Context leg: the client goes away before or at any storage call.
 	ctxLeg(run, "C10")
+	// The verdict classes and an origin sweep under the Prometheus metric factory.
+	c10Prom(run)
 	c10Overlap(run, u, gen, la, lb)
 	c10HugeSizes(run, u, la, lb)
 	c10Faults(run, u, gen, la, lb)
@@ -733,4 +737,31 @@ func c03Endpoint(run *ev.Run) {
 		run.Add("evaluations", tr)
 		run.Add("endpoint_transitions", tr)
 	}
+}
+
+// c10Prom: the named requests of every verdict class and the origin sweep
+// through the handler in a worker process whose metric factory is the
+// Prometheus one (the default of cmd/omniwitness; shared with C19): every
+// answer is one of the documented statuses - a handler that panics while
+// counting the answer has not answered.
+func c10Prom(run *ev.Run) {
+	self, _ := os.Executable()
+	cmd := exec.Command(self, "worker", "c19prom")
+	cmd.Env = append(os.Environ(), "VERIF_METRICS=prometheus")
+	out, err := cmd.Output()
+	var res struct {
+		N      int64
+		Panics []struct{ Name, Body, Panic string }
+		Bad    []struct {
+			Name, Body string
+			Status     int
+		}
+	}
+	if err != nil || json.Unmarshal(lastLine(out), &res) != nil {
+		ev.Internal("C10 prometheus worker failed: %v: %s", err, tail(out))
+	}
+	for _, p := range res.Panics {
+		run.Report("no-answer metrics=prometheus request="+strings.SplitN(p.Name, "[", 2)[0], fmt.Sprintf("with the Prometheus metric factory (the default of cmd/omniwitness) request %s got no answer from the endpoint: the handler panicked: %s", p.Name, p.Panic), map[string]any{"kind": "http-body-prometheus", "body_b64": p.Body})
+	}
+	run.Set("endpoint_requests_with_prometheus_metrics", res.N)
 }
